@@ -38,8 +38,7 @@ func init() {
 			"Each configuration is executed in a probe (Get consumer, GetTaggedBy, Get of every carrier, GetInContext) and compared with the reference model. non-trivial/distinct = distinct executed configuration",
 		Assumptions: []string{"decorator tag '*' is outside the statement (the documentation does not define it) and is not generated"},
 		BudgetQuick: 280 * time.Second, BudgetThorough: 1500 * time.Second,
-		Prepare:     PrepareUniverse,
-		CaseTimeout: 900 * time.Second,
+		Prepare: PrepareUniverse,
 		Run: func(w *W) {
 			var cases []*BCase
 			names := []string{"sb", "sa", "sc"} // declaration order differs from name order on purpose
